@@ -83,3 +83,11 @@ Proof.
   apply udp6_wf; auto.
   all: try (unfold zero_buf; apply repeat_length).
 Qed.
+
+(* a payload that does not fit the buffer (ErrPayloadTooBig of UDP.AppendPayload): nothing is sent *)
+Lemma udp6_too_big smac dmac sip dip sp dp p junk :
+  (1460 < length p)%nat -> udp6_send smac dmac sip dip sp dp p junk = Ok [].
+Proof.
+  intros H. unfold udp6_send, udp_append_payload.
+  destruct (Nat.ltb_spec (EthMaxSize - 54 - 8) (length p)) as [_|Hx]; [reflexivity|unfold EthMaxSize in Hx; lia].
+Qed.
